@@ -23,7 +23,10 @@
     of cd (an absolute or ~ path starts afresh, a relative one is appended, spaces
     escaped) and is omitted when empty; sudo wraps that string with the prompt,
     [--preserve-env] naming the variables of the EFFECTIVE env option and the user
-    flags; after the program, however it ended, no block is left on the stacks. *)
+    flags; a call whose options are refused starts nothing and raises; after the
+    program, however it ended -- by an Exception, by KeyboardInterrupt, SystemExit or
+    GeneratorExit, by a command that exited non-zero -- no block is left on the
+    stacks, and calls made after a caught exception see exactly the blocks still open. *)
 From InvokeVerif Require Export Model.RunTypes.
 
 (** * Part A *)
@@ -171,70 +174,103 @@ Definition composed (fs : list block) (command : string) : string :=
   join " && " ((if String.eqb d "" then [] else [("cd " ++ d)%string]) ++ pres_of fs ++ [command]).
 
 Definition no_kw : kwargs := mkKw (fun _ => None) None [].
-Definition only_env (e : option oval) : kwargs :=
-  mkKw (fun o => match o with Env => e | _ => None end) None [].
 
-Definition sudo_wrapped (cc : ctxcfg) (user_kw env_kw : option oval) (prefixed : string) : string :=
+(** what a call has to raise: the refusal of its options; UnexpectedExit when the
+    command is really run to its end, exits non-zero and warn is off *)
+Definition expected_raise (c : config) (k : kwargs) (fails : bool) : option xkind :=
+  match rejected c k with
+  | Some EType => Some XType
+  | Some EValue => Some XValue
+  | Some _ => Some XBoom
+  | None =>
+      if fails && negb (truthy (want c k Dry)) && negb (truthy (want c k Disown))
+         && negb (truthy (want c k Asynchronous)) && negb (truthy (want c k Warn))
+      then Some XUnexpected else None
+  end.
+
+Definition call_ok (c : config) (parent : env) (command : string) (k : kwargs)
+           (started : call) : bool :=
+  match rejected c k with
+  | Some _ => match started with None => true | Some _ => false end
+  | None => start_ok c parent command k started
+  end.
+
+Definition sudo_wrapped (cc : ctxcfg) (user_kw : option oval) (k : kwargs) (prefixed : string)
+  : string :=
   let user := match user_kw with Some u => u | None => cc_user cc end in
-  let names := match want (cc_run cc) (only_env env_kw) Env with ODict d => map fst d | _ => [] end in
+  let names := match want (cc_run cc) k Env with ODict d => map fst d | _ => [] end in
   ("sudo -S -p '" ++ cc_prompt cc ++ "' "
    ++ (match names with [] => "" | _ => "--preserve-env='" ++ join "," names ++ "' " end)
    ++ (match user with ONone => "" | OStr u => "-H -u " ++ u ++ " " | _ => "-H -u ? " end)
    ++ prefixed)%string.
 
 (** judge the calls observed for a statement inside the blocks [fs];
-    returns (acceptable, calls not yet consumed, an exception has to propagate) *)
+    returns (acceptable, calls not yet consumed, the exception that has to propagate) *)
 Fixpoint judge_stmt (cc : ctxcfg) (fs : list block) (s : stmt) (obs : list call)
-         {struct s} : bool * list call * bool :=
+         {struct s} : bool * list call * option xkind :=
   match s with
-  | SRun cmd =>
+  | SRun cmd k fails =>
       match obs with
-      | c :: rest => (start_ok (cc_run cc) (cc_parent cc) (composed fs cmd) no_kw c, rest, false)
-      | [] => (false, [], false)
+      | c :: rest => (call_ok (cc_run cc) (cc_parent cc) (composed fs cmd) k c, rest,
+                      expected_raise (cc_run cc) k fails)
+      | [] => (false, [], None)
       end
-  | SSudo cmd u e =>
+  | SSudo cmd u k fails =>
       match obs with
       | c :: rest =>
-          (start_ok (cc_run cc) (cc_parent cc) (sudo_wrapped cc u e (composed fs cmd)) (only_env e) c,
-           rest, false)
-      | [] => (false, [], false)
+          (call_ok (cc_run cc) (cc_parent cc) (sudo_wrapped cc u k (composed fs cmd)) k c,
+           rest, expected_raise (cc_run cc) k fails)
+      | [] => (false, [], None)
       end
-  | SRaise => (true, obs, true)
+  | SRaise x => (true, obs, Some x)
   | SBlock b body =>
       let '(ok, rest, r) :=
-        (fix go (l : list stmt) (obs : list call) {struct l} : bool * list call * bool :=
+        (fix go (l : list stmt) (obs : list call) {struct l} : bool * list call * option xkind :=
            match l with
-           | [] => (true, obs, false)
+           | [] => (true, obs, None)
            | x :: l' =>
                let '(ok, rest, r) := judge_stmt cc (fs ++ [b]) x obs in
-               if r then (ok, rest, true)
-               else let '(ok', rest', r') := go l' rest in (ok && ok', rest', r')
+               match r with
+               | Some _ => (ok, rest, r)
+               | None => let '(ok', rest', r') := go l' rest in (ok && ok', rest', r')
+               end
            end) body obs in
-      (ok, rest, match b with BTry => false | _ => r end)
+      (ok, rest, match b with BTry => None | _ => r end)
   end.
 
 Fixpoint judge_list (cc : ctxcfg) (fs : list block) (l : list stmt) (obs : list call)
-  : bool * list call * bool :=
+  : bool * list call * option xkind :=
   match l with
-  | [] => (true, obs, false)
+  | [] => (true, obs, None)
   | x :: l' =>
       let '(ok, rest, r) := judge_stmt cc fs x obs in
-      if r then (ok, rest, true)
-      else let '(ok', rest', r') := judge_list cc fs l' rest in (ok && ok', rest', r')
+      match r with
+      | Some _ => (ok, rest, r)
+      | None => let '(ok', rest', r') := judge_list cc fs l' rest in (ok && ok', rest', r')
+      end
   end.
 
 Definition cstate_eqb (a b : cstate) : bool :=
   list_eqb String.eqb (prefixes a) (prefixes b) && list_eqb String.eqb (cwds a) (cwds b).
 
-(** [calls]: what [start] received, call by call; [final]: the two stacks after the
-    program; [raised]: an exception came out of the program. *)
+(** [calls]: what [start] received, call by call ([None]: nothing was started);
+    [final]: the two stacks after the program; [raised]: what came out of it. *)
 Definition spec_ok_ctx (cc : ctxcfg) (prog : list stmt)
-           (calls : list call) (final : cstate) (raised : bool) : bool :=
+           (calls : list call) (final : cstate) (raised : option xkind) : bool :=
   let '(ok, rest, r) := judge_list cc [] prog calls in
   ok && match rest with [] => true | _ => false end
-  && Bool.eqb r raised && cstate_eqb final (mkC [] []).
+  && oxkind_eqb r raised && cstate_eqb final (mkC [] []).
 
-(** * Part B holds whenever the configured run options are not themselves refused
-    (otherwise every call raises before reaching the runner's [start]). *)
-Definition cfg_sane (cc : ctxcfg) : bool :=
-  match rejected (cc_run cc) no_kw with None => true | Some _ => false end.
+(** * The region in which the present code is proved to meet part B
+    Every sudo call either does not pass [watchers] or passes a list: an explicit
+    [watchers=None] ("not given" for run) makes sudo raise TypeError (F-C15b). *)
+Fixpoint sudo_watchers_ok (s : stmt) {struct s} : bool :=
+  match s with
+  | SSudo _ _ k _ => match kw k Watchers with Some ONone => false | _ => true end
+  | SBlock _ body =>
+      (fix go (l : list stmt) : bool :=
+         match l with [] => true | x :: l' => sudo_watchers_ok x && go l' end) body
+  | _ => true
+  end.
+
+Definition guard_prog (prog : list stmt) : bool := forallb sudo_watchers_ok prog.
